@@ -616,6 +616,8 @@ def _deco_wrap(text, deco):
 
 def render_operand(op, sp=' ', case=None) -> str:
     k = op['k']
+    if k == 'raw':
+        return op['text']        # verbatim (an operand followed by text that belongs to nothing)
 
     def reg(r):
         return case(r) if case else r
